@@ -73,6 +73,9 @@ fn serde_cases<B: Backend>(bk: &str, sum: &mut Summary, w: &mut CaseWriter, seen
                 let out = match r {
                     Ok(Ok((v, borrowed, okval))) => {
                         if !okval { sum.violation(format!("{{\"what\":{},\"observed\":\"invalid value (ill-formed UTF-8 or not normalised)\",\"expected\":\"valid value or error\"}}", jstr(&desc))); }
+                        // the property: borrow_deserialize borrows exactly when the format hands out borrowed data (and the plain form never does)
+                        let hands_out_borrowed = matches!(tok, Tok::BorrowedStr(_) | Tok::BorrowedBytes(_));
+                        if borrowed != (borrowing && hands_out_borrowed) { sum.violation(format!("{{\"what\":{},\"observed\":{},\"expected\":{}}}", jstr(&desc), jstr(&format!("is_borrowed() = {}", borrowed)), jstr(&format!("{}", borrowing && hands_out_borrowed)))); }
                         sum.count("serde.ok"); format!("(SOk_ {} {})", coq_bytes(&v), borrowed)
                     }
                     Ok(Err(())) => { sum.count("serde.err"); "SErr_".to_string() }
@@ -137,9 +140,16 @@ fn borsh_cases<B: Backend>(bk: &str, sum: &mut Summary, w: &mut CaseWriter, seen
         for cut in 0..=enc.len() { if cut <= 8 || cut + 3 >= enc.len() || (enc.len() < 200 && cut % 7 == 0) { inputs.push(enc[..cut].to_vec()); } }
         let mut more = enc.clone(); more.extend_from_slice(&[7, 7]); inputs.push(more);
     }
+    // length prefixes that lie, followed by MORE real payload than the reader's first reservation (4096): the reader must not
+    // start trusting the prefix once that reservation is used up
+    for prefix in [0x0400_0000u32, 0x7fff_ffff, 0xffff_ffff, 0x0001_0000] {
+        for real in [4095usize, 4096, 4097, 5000, 9000] { let mut v = prefix.to_le_bytes().to_vec(); v.extend(std::iter::repeat(b'a').take(real)); inputs.push(v); }
+    }
+    let show = |input: &[u8]| -> String { if input.len() > 300 && input[4..].iter().all(|&b| b == input[4]) { format!("{} followed by {} x {:02x}", hex(&input[..4]), input.len() - 4, input[4]) } else { hex(input) } };
     for input in inputs {
         for is_str in [false, true] {
             sum.evaluations += 1;
+            breadcrumb(&format!("borsh deserialize_reader ty={} bk={} input={}", if is_str { "str" } else { "byt" }, bk, show(&input)));
             alloc::MAX_REQUEST.store(0, SeqCst);
             let r = quiet_catch(AssertUnwindSafe(|| alloc::window(|| {
                 let mut rd: &[u8] = &input;
@@ -148,7 +158,7 @@ fn borsh_cases<B: Backend>(bk: &str, sum: &mut Summary, w: &mut CaseWriter, seen
             })));
             alloc::set_window(false);
             let maxreq = alloc::MAX_REQUEST.load(SeqCst);
-            let desc = format!("borsh ty={} bk={} input={} prof={}", if is_str { "str" } else { "byt" }, bk, hex(&input), profile());
+            let desc = format!("borsh ty={} bk={} input={} prof={}", if is_str { "str" } else { "byt" }, bk, show(&input), profile());
             // the property: never an allocation out of proportion to the input actually supplied
             if maxreq > 4096.max(2 * input.len()) + 64 { sum.violation(format!("{{\"what\":{},\"observed\":{},\"expected\":\"at most max(4096, 2 x input)\"}}", jstr(&desc), jstr(&format!("a single allocation request of {} bytes for {} bytes of input", maxreq, input.len())))); }
             let out = match r {
